@@ -252,8 +252,7 @@ Proof. induction os; cbn; auto. Qed.
 
 (* the unchecked make is a real outcome of the model: without the refusal a negative
    length prefix does crash the daemon *)
-Definition cfg_without_neg_guard : cfg :=
-  mkCfg false true 5242880 true true true true true true true true.
+Definition cfg_without_neg_guard : cfg := repo_cfg <| g_neg := false |>.
 
 Lemma unguarded_make_panics :
   run cfg_without_neg_guard (Run init)
